@@ -1,4 +1,4 @@
-CONSTANTS Legacy = {}  MaxMods = 4  MaxCalls = 3
+CONSTANTS Legacy = {}  MaxMods = 5  MaxCalls = 4
 SPECIFICATION Spec
 INVARIANT OriginalUntouched
 INVARIANT PipelineCanonical
